@@ -66,6 +66,7 @@ void classifyConfig(const Config &c) {
     if (!a.posFormats.empty()) st.cls("attr.format_per_position");
     if (a.cardKind != CARD_DEFAULT) st.cls("attr.cardinality");
     if (!a.constraints.empty()) st.cls("attr.arg_constraint");
+    for (int x : a.ctStyle) { if ((x & 3) == 1) st.cls("attr.constraint_names_short_key"); if ((x & 3) == 2) st.cls("attr.constraint_names_long_key"); if (x & 4) st.cls("attr.constraint_key_list"); }
     if (a.clearFirst) st.cls("attr.clear");
     if (a.sort) st.cls("attr.sort");
     if (a.unique) st.cls("attr.unique");
@@ -216,7 +217,12 @@ Mutated mutate(const Config &cfg, const Line &valid) {
     else if (h.type == HC_DIFFER) { relevant.push_back("differ_equal"); if (h.args.size() > 2) relevant.push_back("differ_equal"); }
     else relevant.push_back("disjoint_common");
   }
-  for (auto &a : cfg.args) for (auto &ct : a.constraints) relevant.push_back(ct.first == CT_REQUIRES ? "missing_required" : "excluded_after_excluder");
+  for (auto &a : cfg.args)
+    for (size_t ci = 0; ci < a.constraints.size(); ++ci) {
+      const char *k = a.constraints[ci].first == CT_REQUIRES ? "missing_required" : "excluded_after_excluder";
+      relevant.push_back(k);
+      if (ci < a.ctStyle.size() && (a.ctStyle[ci] & 4)) { relevant.push_back(k); relevant.push_back(k); }   // key lists
+    }
   for (auto &a : cfg.args) if (a.multiValue) { relevant.push_back("stray_value"); break; }   // where does a value list end?
   if (!relevant.empty() && pick(35)) m.name = oneOf(relevant);
   auto usesOf = [&](int a) { std::vector<size_t> v; for (size_t i = 0; i < m.line.size(); ++i) if (m.line[i].arg == a) v.push_back(i); return v; };
@@ -337,7 +343,14 @@ Mutated mutate(const Config &cfg, const Line &valid) {
     }
   } else if (n == "excluded_after_excluder" || n == "missing_required") {
     std::vector<std::pair<int, int>> rel;
-    for (size_t i = 0; i < cfg.args.size(); ++i) for (auto &ct : cfg.args[i].constraints) if ((ct.first == CT_EXCLUDES) == (n == "excluded_after_excluder")) rel.push_back({static_cast<int>(i), ct.second});
+    for (size_t i = 0; i < cfg.args.size(); ++i)
+      for (size_t ci = 0; ci < cfg.args[i].constraints.size(); ++ci) {
+        auto &ct = cfg.args[i].constraints[ci];
+        if ((ct.first == CT_EXCLUDES) != (n == "excluded_after_excluder")) continue;
+        rel.push_back({static_cast<int>(i), ct.second});
+        // later entries of a key list are three times as likely
+        if (ci < cfg.args[i].ctStyle.size() && (cfg.args[i].ctStyle[ci] & 4)) { rel.push_back({static_cast<int>(i), ct.second}); rel.push_back({static_cast<int>(i), ct.second}); }
+      }
     if (!rel.empty()) {
       auto r = oneOf(rel);
       Line l;
